@@ -1,9 +1,91 @@
 import AioModel.Wire
-/-! Driver commands of property C07 (stub until the model exists). -/
+import AioModel.C07
+/-!
+Driver commands of property C07.
+
+`run <fixes> <limit> <lph> <keys> <label>…` → the state projection after every label, joined
+by `|` (`last …`: only the final projection).  `<fixes>` = four 0/1 digits (f7 f8 race close); `<keys>` = `.`-separated key of each
+task; labels: `s<t>` spawn, `k` tick, `o<t>`/`f<t>` attempt ok/failed, `c<t>` cancel,
+`m<t>` connect timeout, `r<t>`/`x<t>` release to pool / close, `l<c>` idle connection lost,
+`C` connector close, `p<k>.<k>…` shuffle order.
+-/
 namespace Aio.Driver.C07
-open Aio Aio.Wire
+open Aio Aio.Wire Aio.C07
+
+def parseNats (s : String) : Option (List Nat) :=
+  if s == "" then some [] else (s.splitOn ".").mapM (fun t => t.toNat?)
+
+def parseLabel (s : String) : Option Label :=
+  match s.toList with
+  | [] => none
+  | c :: rest =>
+    let arg := String.ofList rest
+    match c with
+    | 's' => arg.toNat?.map .spawn
+    | 'k' => if rest.isEmpty then some .tick else none
+    | 'o' => arg.toNat?.map (.createDone · true)
+    | 'f' => arg.toNat?.map (.createDone · false)
+    | 'c' => arg.toNat?.map .cancel
+    | 'm' => arg.toNat?.map .timeout
+    | 'r' => arg.toNat?.map (.release · true)
+    | 'x' => arg.toNat?.map (.release · false)
+    | 'l' => arg.toNat?.map .lose
+    | 'C' => if rest.isEmpty then some .close else none
+    | 'p' => (parseNats arg).map .shuffle
+    | _ => none
+
+def parseFixes (s : String) : Option Fixes :=
+  match s.toList with
+  | [a, b, c, d] =>
+    if [a, b, c, d].all (fun x => x == '0' || x == '1') then
+      some ⟨a == '1', b == '1', c == '1', d == '1'⟩
+    else none
+  | _ => none
+
+def dots (l : List Nat) : String := if l.isEmpty then "-" else ".".intercalate (l.map toString)
+
+def showFail : Fail → String
+  | .cancelled => "X" | .timeout => "T" | .oserr => "E" | .closedErr => "Q"
+
+def showTask (x : Task) : String :=
+  let bang := if x.extCancel || x.timedOut then "!" else ""
+  match x.pc with
+  | .idle => "i"
+  | .start => "s" ++ bang
+  | .waiting => (match x.fut with | .pending => "w" | .woken => "W" | .cancelled => "V") ++ bang
+  | .creating none => "c" ++ bang
+  | .creating (some true) => "c+" ++ bang
+  | .creating (some false) => "c-" ++ bang
+  | .holding c => s!"h{c}"
+  | .done => "d"
+  | .failed f => showFail f
+
+def showSt (nkeys : Nat) (s : St) : String :=
+  let ks := List.range nkeys
+  let per (f : Key → Nat) : String := ".".intercalate (ks.map (fun k => toString (f k)))
+  let ph := s.acquired.countP (fun x => match x with | .ph _ => true | .conn _ => false)
+  let opn := if s.conns.isEmpty then "-" else String.join (s.conns.map (fun c => showBool c.isOpen))
+  let wq := if s.wkeys.isEmpty then "-" else
+    ";".intercalate (s.wkeys.map (fun k => s!"{k}:{dots (s.waitq.filter (fun t => keyOf s t = k))}"))
+  let idle := "/".intercalate (ks.map (fun k => dots (s.idle.filter (fun c => connKey s c = k))))
+  s!"acq={s.acquired.length} ph={ph} host={per (hostCount s)} wq={wq} idle={idle} ready={dots s.ready} " ++
+  s!"tasks={",".intercalate (s.tasks.map showTask)} open={opn} closed={showBool s.closed}"
 
 def handle : List String → String
+  | "run" :: fx :: limit :: lph :: keys :: labs =>
+    match parseFixes fx, limit.toNat?, lph.toNat?, parseNats keys, labs.mapM parseLabel with
+    | some fx, some limit, some lph, some keys, some labs =>
+      let nkeys := keys.foldl max 0 + 1
+      let go := labs.foldl (fun (acc : St × List String) l =>
+        let s := step fx acc.1 l
+        (s, showSt nkeys s :: acc.2)) (init limit lph keys, [])
+      "|".intercalate go.2.reverse
+    | _, _, _, _, _ => "bad-op"
+  | "last" :: fx :: limit :: lph :: keys :: labs =>
+    match parseFixes fx, limit.toNat?, lph.toNat?, parseNats keys, labs.mapM parseLabel with
+    | some fx, some limit, some lph, some keys, some labs =>
+      showSt (keys.foldl max 0 + 1) (run fx (init limit lph keys) labs)
+    | _, _, _, _, _ => "bad-op"
   | _ => "bad-op"
 
 end Aio.Driver.C07
